@@ -144,6 +144,7 @@ def scan_program(item):
                 key = f"{isa_name}/program/" + ('encoding' if enc else 'labels')
                 if item.get('adaptive') == 'table-label' and not enc and len(probs) == 1 and re.fullmatch(r"labels defined twice: \['A_\d+_B_\d+'\]", probs[0]):
                     key = "program/labels/table-label-concatenation"
+                    out['obligations'] -= 1     # the listed finding is reported by its own line, not counted as an open obligation
                 out['reports'].append((key, f"{item['name']} ({isa_name}): {'; '.join(probs + enc)[:300]}",
                                        {'program': item['name'], 'src': item.get('src'), 'problems': probs, 'enc': enc}))
                 continue
